@@ -1,12 +1,68 @@
-/-! Executable model for property C02 (core-only).  Not built yet: the driver answers
-    `unimplemented` so that a check of this property cannot pass by accident. -/
+import FpgoVerif.Model.C02Core
+import FpgoVerif.Gen.ConvTable
+/-! C02 — the model the driver runs: the evaluator `conv` (Model/C02Core.lean) applied to the conversion table
+    regenerated from `maybe.go` (`Gen.convTable`), and the line protocol (`handle`, `judge`). -/
 namespace FpgoVerif.C02
 
-/-- one protocol case line in, one canonical observation line out -/
-def handle (_line : String) : String := "unimplemented"
+/-- the model the driver runs -/
+def convGo (tgt : Ty) (k : Kind) (x : Val) : Res := conv goStrconv Gen.convTable convFuel tgt k x
 
-/-- spec-level oracle: given the case line and the observation printed by the real code, decide
-    whether the *property* is violated (`violation <why>`) or not (`allowed <why>`). -/
-def judge (_line _impl : String) : String := "violation model-and-implementation-disagree"
+/-- method name → the table's key (its result type), through the regenerated method and alias lists -/
+def methodTy (name : String) : Option Ty :=
+  match Gen.convMethods.find? (fun p => p.1 == name) with
+  | some p => some p.2
+  | none =>
+    match Gen.convAliases.find? (fun p => p.1 == name) with
+    | some a => (Gen.convMethods.find? (fun p => p.1 == a.2)).map (·.2)
+    | none => none
+
+/-- `<Method> <value token> [g]` -/
+def parseCase (line : String) : Option (Ty × Kind × Val) :=
+  match (line.splitOn " ").filter (· ≠ "") with
+  | m :: tok :: _ =>
+    match methodTy m, parseTok tok with
+    | some t, some (k, x) => some (t, k, x)
+    | _, _ => none
+  | _ => none
+
+/-- The model's answer: the result of evaluating the extracted table.  If that result itself contradicts the
+    Spec (`specOK`) — a guard of the table is wrong — the line is marked, so that it can never agree with the
+    implementation's observation and the case goes to `judge`, which decides from the observation of the real
+    code alone. -/
+def handle (line : String) : String :=
+  match parseCase line with
+  | none => "bad-case"
+  | some (t, k, x) =>
+    let r := convGo t k x
+    if specOK t k x r then showRes t r else "table-contradicts-spec " ++ showRes t r
+
+/-- the observation of the real code, read back as a result -/
+def parseObs (t : Ty) (obs : String) : Option Res :=
+  match obs.splitOn " " with
+  | ["ok", tok] =>
+    match parseTok tok with
+    | some (.ty t', v) => if t' = t then some ⟨v, .ok⟩ else none
+    | _ => none
+  | ["err", "nil"] => some ⟨.garbage, .nilE⟩
+  | ["err", "unsupported"] => some ⟨.garbage, .unsupported⟩
+  | ["err", "overflow"] => some ⟨.garbage, .overflow⟩
+  | ["err", "other"] => some ⟨.garbage, .other⟩
+  | _ => none
+
+def judge (line impl : String) : String :=
+  match parseCase line with
+  | none => "allowed unparsable-case"
+  | some (t, k, x) =>
+    match parseObs t impl with
+    | none => s!"violation the conversion did not return a value of its result type or an error: {impl}"
+    | some r =>
+      if specOK t k x r then "allowed the property's clauses hold for this observation (model and implementation differ)"
+      else
+        let why := match k with
+          | .dflt => "unsupported kind must fail with ErrConversionUnsupported"
+          | .nil => "absent value converted with a nil error"
+          | _ => if r.err == ErrK.ok then "(a)/(c) nil error with a value that is not the exact number / out of range / NaN-Inf source"
+                 else "(b) a value that fits the target type was rejected"
+        s!"violation {why}: {impl}"
 
 end FpgoVerif.C02
